@@ -30,6 +30,7 @@ type c10Case struct {
 	Trailing    int    `json:"trailing"`    // bytes of an incomplete extra frame appended after the complete ones (0 = none)
 	FailAt      int    `json:"fail_at"`     // -1: connection stays open; -2: fails right after the last byte; k >= 0: fails after byte k
 	FailErr     string `json:"fail_err"`    // eof | unexpected | reset
+	ShutdownAt  int    `json:"shutdown_at"` // the application requests shutdown after this many deliveries (0 = not before the end)
 	ReadYield   int    `json:"read_yield"`
 	ParseBefore int    `json:"parse_before"`
 	ParseAfter  int    `json:"parse_after"`
@@ -91,6 +92,9 @@ func c10Gen(tier string, seed uint64, i int) any {
 	}
 	if i%4 == 2 {
 		c.Undecodable = r.Pick(2, 5, 9, 40)
+	}
+	if i%7 == 4 && c.FailAt == -1 { // the application shuts the stream down while frames are in flight
+		c.ShutdownAt = 1 + r.Intn(maxInt(1, c.Frames))
 	}
 	c.ReadYield = r.Pick(0, 0, 1, 3)
 	c.ParseBefore = r.Pick(0, 0, 1, 5)
@@ -282,12 +286,17 @@ func c10Eval(c *fw.Ctx, data any) {
 	c.Set("consumers", cs.Consumer)
 	c.Set("gomaxprocs", fmt.Sprint(cs.Procs))
 
-	s := startStream(conn, cs.Consumer, cs.ParseBefore, cs.ParseAfter)
+	s := startStream(conn, cs.Consumer, cs.ParseBefore, cs.ParseAfter, cs.ShutdownAt)
 	okQ := s.finish()
 	kind := "open"
 	if failing {
 		kind = "fail"
 		c.Count("failing_streams", 1)
+	}
+	appShutdown := cs.ShutdownAt > 0 && s.shutdownSent
+	if appShutdown {
+		kind = "shutdown"
+		c.Count("streams_shut_down_mid_flight", 1)
 	}
 	viol := func(class, locus, detail string) {
 		c.Violation("stream("+kind+")", class, locus, fmt.Sprintf("%s\ncase: %+v", detail, *cs))
@@ -375,7 +384,11 @@ func c10Eval(c *fw.Ctx, data any) {
 		}
 		c.Set("delivery_orders", fmt.Sprintf("%016x", h))
 	}
-	if !failing {
+	if appShutdown {
+		// a local shutdown is not a connection failure: nothing is demanded about what still arrives or about the
+		// error channel; exactly-once, integrity, causality (above) and immutability (below) still apply
+		c.Count("frames_delivered_before_or_during_shutdown", int64(len(order)))
+	} else if !failing {
 		lost := 0
 		first := -1
 		for j := range frames {
